@@ -36,6 +36,7 @@ def run(rep, tier):
     same_measure(rep, F)
     metric_laws(rep, F, tier)
     legacy_twins(rep, F, "R16.8", ("Rhumb", "Haversine", "Geodesic"))
+    length_tables(rep, F, "R16.9", tier)
 
 def bearings(rep, F):
     rep.rule("R16.1", "Bearing::bearing = (x + 360) % 360 in every metric space")
@@ -515,3 +516,99 @@ def legacy_twins(rep, F, rule, spaces):
         except (NoModel, Unanalysable, TypeError, KeyError, ValueError) as e:
             rep.bad(rule, "twin:%s:non-abstractable" % key, str(e), where=fn.loc())
     rep.floor(rule, "legacy twin methods", n, 20 if "Euclidean" not in spaces else 60)
+
+
+def length_tables(rep, F, rule="R16.9", tier="quick"):
+    """LengthMeasurable::length of LineString (0..5 coordinates and one long line string) and MultiLineString (0..3 members) for an abstract
+    metric space d: the complete path table, walked with every coordinate sequence over three witness positions (repeated vertices, closed
+    rings, out-and-back lines included) and d answered by the Euclidean distance, gives the sum of d over the consecutive pairs - every
+    segment once, none skipped at a block boundary, no special case for closed or short line strings."""
+    import itertools
+    import math
+    import sys
+    from ..numeval import NumEval
+    from ..evalterm import NoModel
+    rep.rule(rule, "LineString::length (0..5 coordinates, every sequence over three witness positions; one line string of 300 coordinates) and MultiLineString::length (0..3 members) with an abstract metric d "
+                   "= the sum of d(p_i, p_i+1) over all consecutive pairs")
+    LMs = LM + "length::LengthMeasurable"
+    LSp = GT + "line_string::LineString"
+
+    def vec(items):
+        return ("call", "vec!", (("array", tuple(items)),))
+
+    class Ev(NumEval):
+        def call(self, t):
+            m = t[1].rsplit("::", 1)[-1]
+            a = t[2]
+            if m == "distance" and len(a) == 3:
+                def xy(v):
+                    v = self.ev(v)
+                    while isinstance(v, dict) and "0" in v and "x" not in v:
+                        v = v["0"]
+                    return v
+                p_, q_ = xy(a[1]), xy(a[2])
+                return math.hypot(q_["x"] - p_["x"], q_["y"] - p_["y"])
+            return NumEval.call(self, t)
+    try:
+        fn = F.impl_method(LMs, r"^%sline_string::LineString<F>$" % GT, None, "length", crates=("geo",))
+        fm = F.impl_method(LMs, r"^%smulti_line_string::MultiLineString<F>$" % GT, None, "length", crates=("geo",))
+    except KeyError as e:
+        rep.bad(rule, "length:anchor", str(e))
+        return
+    W = [(0.0, 0.0), (3.0, 4.0), (6.0, 0.0)]
+    total = 0
+    old_limit = sys.getrecursionlimit()
+    sys.setrecursionlimit(max(old_limit, 20000))
+    try:
+        for n in (0, 1, 2, 3, 4, 5, 300):
+            arg = ("&", ("adt", LSp, "LineString", (vec([("opaque", "c%d" % i) for i in range(n)]),)))
+            ex = Symex(F, inline_crates=("geo", "geo_types"), no_inline=[r"Distance.*::distance$"], loop_bound=n + 8, concrete_iters=True, max_paths=20000, budget_s=120)
+            ex.pure_assign_ops = True
+            try:
+                paths = [p for p in ex.run(fn, args=[arg, ("arg", 2)]) if p.kind != "cut"]
+            except Unanalysable as e:
+                rep.bad(rule, "length:LineString:unanalysable", "%d coordinates: %s" % (n, e), where=fn.loc())
+                return
+            if n == 300:
+                seqs = [[W[(i * 7 + i // 5) % 3] for i in range(n)], [W[i % 2] for i in range(n)]]
+            else:
+                seqs = [list(s) for s in itertools.product(W, repeat=n)]
+            for cs in seqs:
+                ev = Ev(F, {("opaque", "c%d" % i): {"x": cs[i][0], "y": cs[i][1]} for i in range(n)})
+                try:
+                    hit = ev.select_path(paths)
+                    got = [float(ev.ev(h.ret)) if h.kind == "ret" else "panic" for h in hit]
+                except (NoModel, TypeError, KeyError, ValueError) as e:
+                    rep.bad(rule, "length:LineString:non-abstractable", "a decision / the result of LineString::length cannot be evaluated from the coordinates and the metric (%s)" % e, where=fn.loc())
+                    return
+                want = sum(math.hypot(cs[i + 1][0] - cs[i][0], cs[i + 1][1] - cs[i][1]) for i in range(n - 1))
+                total += 1
+                if len(got) != 1 or got[0] == "panic" or abs(got[0] - want) > 1e-9 * max(1.0, want):
+                    shown = cs if n <= 5 else "%d coordinates alternating over %s" % (n, sorted(set(cs)))
+                    rep.bad(rule, "length:LineString", "LineString::length(%s) = %s with the Euclidean metric, the sum over the consecutive pairs is %s" % (shown, got, want), where=fn.loc())
+                    return
+        rep.ok(rule, "length:LineString[%d witnesses]" % total)
+        # MultiLineString: members abstract, their lengths given
+        for k in (0, 1, 2, 3):
+            arg = ("&", ("adt", GT + "multi_line_string::MultiLineString", "MultiLineString", (vec([("opaque", "m%d" % i) for i in range(k)]),)))
+            ex = Symex(F, inline_crates=("geo", "geo_types"), no_inline=[r"LengthMeasurable.*::length$"], loop_bound=k + 6, concrete_iters=True, max_paths=5000, budget_s=30)
+            ex.pure_assign_ops = True
+            paths = [p for p in ex.run(fm, args=[arg, ("arg", 2)]) if p.kind != "cut"]
+
+            class Em(NumEval):
+                def call(self, t):
+                    if t[1].rsplit("::", 1)[-1] == "length" and len(t[2]) == 2:
+                        return float(self.ev(t[2][0]))
+                    return NumEval.call(self, t)
+            vals = [2.5, 7.0, 0.0][:k]
+            ev = Em(F, {("opaque", "m%d" % i): vals[i] for i in range(k)})
+            hit = ev.select_path(paths)
+            got = [float(ev.ev(h.ret)) if h.kind == "ret" else "panic" for h in hit]
+            if got != [sum(vals)]:
+                rep.bad(rule, "length:MultiLineString", "MultiLineString::length with member lengths %s = %s" % (vals, got), where=fm.loc())
+                return
+        rep.ok(rule, "length:MultiLineString[0..3 members]")
+    except (Unanalysable, NoModel, TypeError, KeyError, RecursionError) as e:
+        rep.bad(rule, "length:unanalysable", str(e)[:200])
+    finally:
+        sys.setrecursionlimit(old_limit)
